@@ -653,3 +653,21 @@ package tmi
 //@       distinctProofs(s.Committing.PrecommitProofs)
 //@   loop 2 invariant backfill-view: backfillVRV == addr(s.Committing) && (s.Committing.Height == 0 ==> s.Committing.PrecommitProofs == nil)
 //@   loop 2 invariant headroom: s.Voting.Version < MAXU32 - 3 && s.NextRound.Version < MAXU32 - 3 && s.Committing.Version < MAXU32 - 3
+
+// ---- proposed-header pre-check (C09): every header a peer can send gets one of the defined answers, never a panic ----
+//@ define phCheckAnswer(v) = (v.Status == PHCheckAcceptable || v.Status == PHCheckNextHeight || v.Status == PHCheckAlreadyHaveSignature ||
+//@     v.Status == PHCheckSignerUnrecognized || v.Status == PHCheckRoundTooOld || v.Status == PHCheckRoundTooFarInFuture) &&
+//@     (v.Status == PHCheckAcceptable ==> v.ProposerPubKey != nil)
+//@ chaninv PHCheckRequest.Resp(v): phCheckAnswer(v)
+
+//@ func Kernel.setPHCheckStatus
+//@   property C09
+//@   requires req.PH.ProposerPubKey != nil && resp != nil && (vID == ViewIDCommitting || vID == ViewIDVoting || vID == ViewIDNextRound)
+//@   ensures answered: resp.Status == PHCheckAlreadyHaveSignature || resp.Status == PHCheckSignerUnrecognized ||
+//@       (resp.Status == PHCheckAcceptable && resp.ProposerPubKey != nil)
+//@   modifies resp.Status, resp.ProposerPubKey, resp.PrevBlockHash, resp.PrevValidatorSet
+
+//@ func Kernel.sendPHCheckResponse
+//@   property C09
+//@   requires req.PH.ProposerPubKey != nil && req.Resp != nil
+//@   modifies memory except Kernel
